@@ -106,7 +106,7 @@ def _clone(v, memo):
             return memo[id(v)]
         n = SList(v.ref, v.length, v.fn, None, v.kind)
         n.transients = dict(getattr(v, 'transients', {}) or {})
-        for extra in ('slice_of', 'split_points', 'role_tag'):
+        for extra in ('slice_of', 'split_points', 'role_tag', 'index_role', 'role_strict'):
             if extra in v.__dict__:
                 setattr(n, extra, v.__dict__[extra])
         memo[id(v)] = n
@@ -676,6 +676,9 @@ class Executor:
             for e in rhs:
                 if isinstance(e, ast.BinOp):
                     continue
+                if (isinstance(e, ast.Subscript) and isinstance(e.value, ast.Name) and isinstance(state.env.get(e.value.id), SList)
+                        and state.env[e.value.id].kind == 'ttref' and getattr(self.ctx.contract, 'heap_guard', True)):
+                    continue        # a stored (frozen) state: nothing in the environment is reached; a write to it is refuted by the heap guard in the body
                 if isinstance(e, ast.Call):
                     if isinstance(e.func, ast.Attribute) and e.func.attr == 'copy':
                         continue
@@ -1066,7 +1069,7 @@ class Executor:
             if is_tag(idx, 'slice'):
                 return self.list_slice(base, idx, state, line)
             i = self.norm_index(base, idx, state, line)
-            v = base.get(i)
+            v = base.get_resolved(i)
             if base.kind == 'ttref' and not isinstance(v, STT):
                 if not getattr(self.ctx.contract, 'heap_guard', True):
                     raise Unsupported('read of a state of a trajectory list in a contract without heap guards (line %d)' % line)
